@@ -74,15 +74,21 @@ if __name__ == '__main__':
     for sc in sys.argv[4:]:
         # multiply/divide kernels: mathematical integers with explicit wrap conditions (see mirsym.MODE); everything else 64-bit bit-vectors
         mode = 'int' if sc.startswith(('chunks.', 'unchunk.')) else 'bv'
-        if sc.endswith('@int'):
+        os.environ.pop('MIRSYM_INDUCTIVE', None)
+        if sc.endswith('@ind'):
+            os.environ['MIRSYM_INDUCTIVE'] = 'strict'
+            sc_run = sc[:-4]
+        elif sc.endswith('@int'):
             mode, sc_run = 'int', sc[:-4]
         elif sc.endswith('@bv'):
             mode, sc_run = 'bv', sc[:-3]
-        else:
+        elif not sc.endswith('@ind'):
             sc_run = sc
         mirsym.set_mode(mode)
         del mirsym.RANGE[:]
         r = CATALOG[sc_run](fns, src, nmax)
+        if sc.endswith('@ind'):
+            r.bounds = 'ALL 64-bit N: the pipeline\'s internal iteration is summarised by an automatically instantiated and solver-checked loop invariant (induction over the iteration number) instead of unrolling; ' + r.bounds.replace('N <= %d' % nmax, 'no bound on N')
         r.bounds += ' [numeric back-end: %s]' % ('mathematical integers in [0, 2^64) with explicit wrap conditions' if mode == 'int' else '64-bit bit-vectors')
         r.name = sc
         print(json.dumps(r.to_dict()), flush=True)
